@@ -26,7 +26,7 @@ func q(d time.Duration) time.Duration { return d }
 
 var props = map[string]propCfg{
 	"C01": {QuickShards: 4, ThoroughShards: 16, Level: "exploration",
-		Rule:        "rapid generators draw an abstract packet of each of the 15 types (every optional field independently present/absent, boundary-biased lengths 0,1,127,128,16383,16384,65534,65535, PUBLISH payload padded to remaining-length boundaries) plus the setter call order; oracle = WriteTo->ReadPacket round trip compared accessor by accessor with the model and byte-identical re-encoding. Non-trivial = at least one optional field present, or a boundary length, or a list with >= 2 elements; distinct = 64-bit FNV fingerprint of (model, call plan).",
+		Rule:        "rapid generators draw an abstract packet of each of the 15 types (every optional field independently present/absent, boundary-biased lengths 0,1,127,128,16383,16384,65534,65535, PUBLISH payload and property section padded to length boundaries, correlated fields, shaped lists) plus how it is built: setter call order, zero setters called or skipped, decoy calls (same setter first with another value), repeated identical calls, read-only probes between calls, caller-owned variadic slices reused afterwards, and a prelude of unrelated decodes; oracle = WriteTo->ReadPacket round trip compared accessor by accessor with the model and byte-identical re-encoding. Non-trivial = at least one optional field present, or a boundary length, or a list with >= 2 elements; distinct = 64-bit FNV fingerprint of (model, call plan).",
 		Assumptions: commonAssumptions},
 	"C02": {QuickShards: 4, ThoroughShards: 16, Level: "exploration",
 		Rule:        "C01 generators restricted to MQTT-well-formed packets; oracle = differential: the independent strict decoder must accept the library's frame and read back exactly the model (absent property = zero value). Non-trivial = frame carries >= 1 property, or a will, or a multi-byte remaining/property length; distinct = fingerprint of the frame.",
@@ -35,19 +35,19 @@ var props = map[string]propCfg{
 		Rule:        "frames produced by the reference encoder from spec-valid abstract packets in generated styles (property order, explicit zero-valued properties, short forms); oracle = ReadPacket accepts and accessors equal the model. Non-trivial = frame differs from what the library's own encoder emits for the same model; distinct = fingerprint of the frame.",
 		Assumptions: append([]string{refAssumption}, commonAssumptions...)},
 	"C04": {QuickShards: 4, ThoroughShards: 16, Level: "exploration", Fuzz: []string{"FuzzReadPacket", "FuzzUnmarshal"}, FuzzTime: 150 * time.Second,
-		Rule:        "byte strings from four generators (steered arbitrary bytes, prefixes of valid frames, valid frames with one length field raised/lowered, every type nibble on foreign bodies) through ReadPacket (contiguous and fragmented readers) and UnmarshalBinary of all 16 exported types; oracle = returns normally and exactly one of packet/error is nil. Non-trivial = input rejected, or accepted but not identical to a library-encoded frame; distinct = fingerprint of (entry point, bytes).",
+		Rule:        "byte strings from eight generators (steered arbitrary bytes, prefixes of valid frames, valid frames with one length field raised/lowered, every type nibble on foreign bodies, CONNECT of another protocol, a defined property in the wrong packet, a property repeated within a section, byte-level mutations) through ReadPacket (contiguous and fragmented readers) and UnmarshalBinary of all 16 exported types; oracle = returns normally and exactly one of packet/error is nil. Non-trivial = input rejected, or accepted but not identical to a library-encoded frame; distinct = fingerprint of (entry point, bytes).",
 		Assumptions: commonAssumptions},
 	"C05": {QuickShards: 4, ThoroughShards: 16, Level: "exploration", Fuzz: []string{"FuzzDecodeBounded"}, FuzzTime: 150 * time.Second,
-		Rule:        "C04-style byte strings weighted towards repeated sections (filter lists, reason-code lists, property lists, subscription identifiers) truncated / empty / inconsistent / very long; oracle = the call returns (watchdog, confirmed alone in a fresh process), bytes allocated <= 1 MiB + 512 x frame size, and no list of a returned packet has more elements than the frame has bytes. Non-trivial = frame reaches a repeated section and is malformed there, or has >= 256 list elements; distinct = fingerprint of the frame.",
+		Rule:        "C04-style byte strings weighted towards repeated sections (filter lists, reason-code lists, property lists, subscription identifiers) truncated / empty / inconsistent / very long; oracle = the call returns (watchdog, confirmed alone in a fresh process; complete frames also on a stream that stays open), bytes allocated <= 1 MiB + 512 x frame size, no list of a returned packet has more elements than the frame has bytes, packets returned earlier (last 8 + one sentinel per type) do not change, and a 32x longer list costs <= 200x the thread CPU time (7 list kinds). Non-trivial = frame reaches a repeated section and is malformed there, or has >= 256 list elements; distinct = fingerprint of the frame.",
 		Assumptions: append([]string{"allocation is metered with runtime.MemStats.TotalAlloc around a single-goroutine call", "hang threshold 10 s / 1 GiB heap per call, re-confirmed alone"}, commonAssumptions...)},
 	"C06": {QuickShards: 4, ThoroughShards: 16, Level: "exploration",
-		Rule:        "sequences of 1..8 frames (valid frames from both encoders, content-malformed frames, zero-length frames) followed by arbitrary trailing bytes on one counting reader; oracle = after every call exactly the bytes of the frames so far were consumed (frame length from the reference framing parser), every result equals the result of reading that frame alone, then io.EOF. Non-trivial = >= 2 frames and a rejected or zero-length frame that is not last; distinct = fingerprint of the stream.",
+		Rule:        "sequences of 1..8 frames (valid frames from both encoders, content-malformed frames, zero-length frames) followed by arbitrary trailing bytes on one counting reader offered as scripted reader, bytes.Reader, bytes.Buffer, bufio.Reader or a reader with a chunk-wise Len(), contiguous / bytewise / last bytes with io.EOF / stream staying open, after a prelude of unrelated (also truncated) reads; oracle = after every call exactly the bytes of the frames so far were consumed (frame length from the reference framing parser), every result equals the result of reading that frame alone, then io.EOF. Non-trivial = >= 2 frames and a rejected or zero-length frame that is not last; distinct = fingerprint of the stream.",
 		Assumptions: append([]string{refAssumption}, commonAssumptions...)},
 	"C07": {QuickShards: 4, ThoroughShards: 16, Level: "exploration",
-		Rule:        "frames x delivery schedules allowed by io.Reader (all compositions of the frame length for short frames, generated schedules with zero-length reads and data+EOF endings for long ones); oracle = metamorphic: same packet (accessors and re-encoding) or same rejection as one contiguous read. Non-trivial = schedule splits the body or the remaining-length field, contains a (0,nil) read, or ends with data+EOF; distinct = fingerprint of (frame, schedule).",
+		Rule:        "frames x delivery schedules allowed by io.Reader (all compositions of the frame length for short frames, generated schedules with zero-length reads and data+EOF endings for long ones, optionally behind another frame on the same stream with a read boundary inside the next header) x concrete reader types; oracle = metamorphic: same packet (accessors and re-encoding) or same rejection as one contiguous read. Non-trivial = schedule splits the body or the remaining-length field, contains a (0,nil) read, or ends with data+EOF; distinct = fingerprint of (frame, schedule).",
 		Assumptions: commonAssumptions},
 	"C08": {QuickShards: 4, ThoroughShards: 16, Level: "fault_enumeration",
-		Rule:        "frames x every cut offset k in [0,len) (all k for frames <= 512 bytes) x failure kind (EOF or injected error, alone or together with the last bytes) x delivery of the prefix; oracle = nil packet and non-nil error, errors.Is(err, injected), errors.Is(err, io.EOF) at k = 0, and a packet only when every byte was delivered. Non-trivial = k inside the body; distinct = fingerprint of (frame, k, failure kind, delivery).",
+		Rule:        "frames x every cut offset k in [0,len) (all k for frames <= 512 bytes) x failure kind (EOF, a fresh error value, io.ErrUnexpectedEOF itself, errors wrapping io.EOF / io.ErrUnexpectedEOF, timeout, deadline, closed pipe; sticky or reported once; alone or together with the last bytes) x delivery of the prefix x reader type; oracle = nil packet and non-nil error, errors.Is(err, injected), errors.Is(err, io.EOF) at k = 0, and a packet only when every byte was delivered. Non-trivial = k inside the body; distinct = fingerprint of (frame, k, failure kind, delivery).",
 		Assumptions: commonAssumptions},
 	"C09": {QuickShards: 4, ThoroughShards: 16, Level: "exploration", Fuzz: nil,
 		Rule:        "valid frames from the reference encoder x (a) every cut strictly inside a field per the reference field map with remaining length patched, (b) each variable byte integer replaced by a 5-byte continuation, (c) each of the seven boolean properties x values 2..255, (d) each property position x all 229 undefined identifiers; oracle = ReadPacket returns (nil, error). Every mutated frame is non-trivial; distinct = fingerprint of the mutated frame.",
